@@ -31,6 +31,7 @@ type Verdict struct {
 	Symbols   int   // symbols decoded
 	Rebuilds  int   // adaptive-tree rebuilds during decoding
 	Trailing  int   // whole input bytes after the last bit that was needed
+	Needed    int   // length of the shortest prefix of the stream that holds every bit that was needed (header included)
 }
 
 type bitSource struct {
@@ -152,6 +153,7 @@ decode:
 	v.Decoded = len(out)
 	v.BitsUsed = bs.pos
 	v.Trailing = len(body) - (bs.pos+7)/8
+	v.Needed = len(stream) - v.Trailing
 	v.Rebuilds = h.Rebuilds
 	v.SizeOK = v.Declared >= 0 && int64(len(out)) == v.Declared
 	v.OK = v.HeaderOK && v.CRCOK && v.SizeOK
